@@ -207,7 +207,7 @@ func genChange(t *rapid.T) scn.Op {
 		m := map[string]int{}
 		for _, name := range []string{"pkga", "pkgb", "elsewhere"} {
 			if rapid.Bool().Draw(t, "has_"+name) {
-				m[name] = genSev(t, "lvl_"+name)
+				m[name] = rapid.IntRange(1, 6).Draw(t, "lvl_"+name) // uniform: package levels above AND below the global level
 			}
 		}
 		return scn.Op{K: scn.OpPkg, Pkgs: m}
@@ -270,6 +270,8 @@ func genSeq(t *rapid.T, g, budget int, changer bool, sched string) []scn.Op {
 			for i := 0; i < n; i++ {
 				op.Sevs = append(op.Sevs, rapid.IntRange(1, 6).Draw(t, "tsev"))
 			}
+			// which of the lines use the Printf-style methods (Warningf …)
+			op.Fm = rapid.IntRange(0, 1<<uint(n)-1).Draw(t, "tracer_f_mask")
 			if n >= 2 {
 				// the same handler also runs without a tracer: main line once plain, once traced, adjacent
 				op.Echo = rapid.SampledFrom([]int{0, 0, 0, 1, 2}).Draw(t, "echo")
@@ -454,6 +456,10 @@ func record(sc *scn.Scenario, rep *scn.Report, prefix string) {
 	add(rep.TracerNil > 0, "tracer_nil_fallback")
 	add(rep.TracerEither > 0, "tracer_concurrent_with_level_change")
 	add(rep.TracerWrites > 0, "tracer_with_collected_lines_received")
+	add(rep.RealFLines > 0, "tracer_collected_printf_style_lines")
+	add(rep.NilFLines > 0, "nil_tracer_printf_style_lines")
+	add(rep.NilFQuieter > 0, "nil_tracer_printf_line_suppressed_only_by_pkg_level")
+	add(rep.NilFLouder > 0, "nil_tracer_printf_line_enabled_only_by_pkg_level")
 	add(hasEcho(sc), "plain_echo_of_tracer_main_line_drawn")
 	add(rep.EchoAdjacent > 0, "plain_line_and_same_text_trace_adjacent_in_stream")
 	if rep.EchoAdjacent > 0 {
